@@ -166,6 +166,7 @@ class LazyRows:
         self.world = world
         self.cells = {}  # materialised cells of THIS grid instance
         self.reads = []  # order of first reads
+        self.writes = []  # (y, x) of every __setitem__ on this instance
 
     def get(self, y, x):
         k = (y, x)
@@ -176,6 +177,7 @@ class LazyRows:
 
     def set(self, y, x, obj):
         self.cells[(y, x)] = obj
+        self.writes.append((y, x))
 
     def _y(self, y):
         H = self.world.H
@@ -364,3 +366,23 @@ class ForbiddenRng:
 
     def __getattr__(self, name):
         raise GlobalRngTouched(f'global generator used: .{name}')
+
+
+# --------------------------------------------------------------------------
+# memo caches of the code under test must not carry proxies (or anything else) from one path to the next
+
+
+def _clear_repo_caches():
+    from gym_gridverse.envs import reward_functions as _RF
+    from gym_gridverse.utils import raytracing as _RT
+    for f in (_RF.dijkstra, _RT.cached_compute_rays, _RT.cached_compute_rays_fancy):
+        try:
+            f.cache_clear()
+        except AttributeError:
+            pass
+
+
+from . import symx as _symx  # noqa: E402
+
+if _clear_repo_caches not in _symx.PATH_HOOKS:
+    _symx.PATH_HOOKS.append(_clear_repo_caches)
